@@ -184,6 +184,25 @@ Definition ok (c : nv * nv * nat) : bool := let '(o, n, k) := c in
         except Exception:
             pass
         ctx.count(('unknown-sim', what)); ctx.dist('unknown key rejected')
+    # nested parameter dicts addressed to the modules of a populated container: applied to the named module, rejected for an unknown module name
+    for grp, mods_, good, goodpar, val, badname in [('diseases', lambda: ss.ndict(ss.SIR(), ss.SIS()), 'sis', 'beta', 0.37, 'siss'), ('networks', lambda: ss.ndict(ss.RandomNet(), ss.MFNet()), 'randomnet', 'n_contacts', 7, 'measles'),
+                                                    ('demographics', lambda: ss.ndict(ss.Births(), ss.Deaths()), 'deaths', 'rel_death', 0.25, 'death')]:
+        try:
+            sim = ss.Sim(**{grp: mods_()}, verbose=0)
+            sim.pars.update({grp: {good: {goodpar: val}}})
+            cur = sim.pars[grp][good].pars[goodpar]
+            ok_ = (cur == val) or (isinstance(cur, ss.TimePar) and cur.v == val) or (isinstance(cur, ss.Dist) and list(cur.pars.values())[0] == val)
+            ctx.count(('ndict-nested', grp), nontrivial=True); ctx.dist('nested update of a populated container')
+            if not ok_: viol(f'sim.pars.update({grp}={{{good!r}: {{{goodpar!r}: {val}}}}}) is not in effect: {cur!r}', dict(route='ndict-nested', group=grp))
+        except Exception as E:
+            viol(f'nested update of {grp}.{good}.{goodpar} raised {type(E).__name__}: {E}', dict(route='ndict-nested', group=grp))
+        try:
+            sim = ss.Sim(**{grp: mods_()}, verbose=0)
+            sim.pars.update({grp: {badname: {goodpar: val}}})
+            viol(f'sim.pars.update({grp}={{{badname!r}: ...}}) names a module that is not in the container and was accepted silently', dict(route='ndict-unknown-module', group=grp))
+        except Exception:
+            pass
+        ctx.count(('ndict-unknown', grp)); ctx.dist('unknown key rejected')
     # values in effect through the constructor routes
     def eff(mod, name, val):
         cur = mod.pars[name]
